@@ -9,7 +9,7 @@
 import re
 
 from . import facts as F
-from .facts import norm_ty
+from .facts import norm_ty, find_all
 
 AST_TYPES = ["Expression", "Operator", "Test", "Action", "Comparison", "Size", "TimeSpec", "FileType", "PermCheck", "Permission", "FormatElement", "FormatField", "FormatSpecial", "GlobalOption", "PositionalOption", "Token"]
 
@@ -185,3 +185,25 @@ def resolution_obligation(c, facts, pid):
         if pid in props or not props:
             hits.append(text)
     c.ob("%s.resolution" % pid, "crate", "method names resolve to the items the rules read", not hits, "; ".join(hits) if hits else "no inherent method shadows a crate trait method, no crate trait gives a std type a method with a std name", nontrivial=False)
+
+
+ENV_CALL = re.compile(r"^(std::)?env::(var|var_os|vars|vars_os|args|args_os|current_dir|current_exe|temp_dir|home_dir)$")
+
+
+def environment_reads(facts, pid):
+    """Calls of std::env::* and uses of env!/option_env! in the non-test functions of the modules the property's rules read."""
+    out = []
+    for fn in facts.nontest_fns():
+        top = fn.module[0] if fn.module else ""
+        props = MODULE_PROPS.get(top, set())
+        if props and pid not in props:
+            continue
+        for x in find_all(fn.node, lambda n: isinstance(n, dict) and n.get("k") in ("call", "macro", "path")):
+            if x.get("k") == "macro" and x.get("name") in ("env", "option_env"):
+                out.append("%s!(..) in %s" % (x["name"], fn.key))
+            elif x.get("k") == "path":
+                segs = x.get("segs") or []
+                txt = "::".join(segs)
+                if ENV_CALL.match(txt) or (len(segs) >= 2 and segs[-2] == "env" and ENV_CALL.match("env::" + segs[-1])):
+                    out.append("%s in %s" % (txt, fn.key))
+    return sorted(set(out))
